@@ -107,7 +107,7 @@ class Ctx:
             raise Infra("harness %s timed out after %ds" % (args[0], timeout))
         if p.returncode != 0 or not os.path.exists(out):
             if allow_fail:
-                return {"failed": True, "rc": p.returncode, "stderr": p.stderr[-6000:], "stdout": p.stdout[-2000:]}
+                return {"failed": True, "rc": p.returncode, "stderr": p.stderr[-6000:], "stderr_head": p.stderr[:3000], "stdout": p.stdout[-2000:]}
             raise Infra("harness %s failed rc=%d:\n%s\n%s" % (" ".join(args[:3]), p.returncode, p.stdout[-2000:], p.stderr[-6000:]))
         rep = json.load(open(out))
         log("[vh] %s: cases=%d evals=%d nontrivial=%d mismatches=%d %.1fs" % (
